@@ -52,6 +52,11 @@ BLOCK_CTX = [
     ("list-table-next", "- a|b\n  -|-\n"),
     ("quote-empty-last", "> a\n>"),
     ("list-empty-item", "-\n"),
+    ("quote-nospace-next", ">a\n>"),
+    ("quote-fence-next", "> ```\n> c\n"),
+    ("quote-heading-next", "> # h\n"),
+    ("olist-tab-next", "1. a\n\t2"),
+    ("para-blank-last", "a\n\n"),
 ]
 
 INLINE_CTX = [
@@ -69,6 +74,10 @@ INLINE_CTX = [
     ("html-tag", ["<a ", H("a"), H("b"), ">"]),
     ("open-bracket", ["[", H("a"), H("b")]),
     ("bang", ["![", H("a"), H("b")]),
+    ("autolink", ["<http://x/", H("a"), H("b"), ">"]),
+    ("autolink-mail", ["<a", H("a"), H("b"), "@b.c>"]),
+    ("image-in-image", ["![o ![i\\", H("a"), H("b"), " &amp;](x) t](y)"]),
+    ("escape-entity", ["a\\", H("a"), H("b"), " &#", H("a"), "5; b"]),
 ]
 
 NEST_CTX = [
@@ -82,9 +91,10 @@ NEST_CTX = [
 
 
 QUICK_BLOCK = ("para-next", "quote-table-next", "list-table-next", "table-next", "quote-empty-last", "list-empty-item",
-               "quote-lazy", "list-next", "list-blank-next", "fence-open", "html-next", "ref-title-open", "quote-list", "bullet")
+               "quote-lazy", "list-next", "list-blank-next", "fence-open", "html-next", "ref-title-open", "quote-list", "bullet",
+               "quote-nospace-next", "quote-fence-next", "quote-heading-next", "olist-tab-next")
 
-URLSLOT = ("link-dest", "ref-next", "ref-label-next", "ref-title-open")
+URLSLOT = ("link-dest", "ref-next", "ref-label-next", "ref-title-open", "autolink", "autolink-mail")
 
 
 def _spec_for(name):
